@@ -125,7 +125,19 @@ def solve_game_via_run_games(name, game):
             og = _o.Game(game["players"], game["transition_list"], game["final_states"], [0] * n)
             # C11 only asks that the game is "solved or reported as having no solution"; whether that report is right is C06's
             # business (open finding sub-tolerance-positive-value).  Recorded as an observation.
-            return "nosol", {"positive_value": 0 in _o.positive_set(og)}
+            positive = 0 in _o.positive_set(og)
+            if positive:
+                # a report of 'no solution' (or any other failure message - the wording is not relied upon) for a game whose initial
+                # value is far above anything the convergence tolerance could hide is neither 'solved' nor 'has no solution'
+                try:
+                    from .. import bigoracle
+                    v0 = float(bigoracle.reach_values(bigoracle.BigGame(game))["v"][0])
+                except Exception:
+                    v0 = None
+                if v0 is not None and v0 > 1e-3:
+                    return "violated", {"problem": "game is neither solved nor without solution: the batch entry carries a failure message although "
+                                                   "the initial state's reachability value is %.6g" % v0, "msg": str(a["msg"])[:200]}
+            return "nosol", {"positive_value": positive}
         return "violated", {"problem": "unexpected batch entry", "msgs": [a["msg"], b["msg"]]}
     d = (last.diag or {}) if last else {}
     if d.get("phase") == "total_rewards" and not d.get("main_quiet"):
